@@ -48,6 +48,10 @@ def blocks(tier):
     from .checks import c15
     b.append(Block("v3.env<=1_departure", "3.0", S.thin(S.v3_base_all(), 8), S.ABSENT,
                    c15.v3_env_departures(1), twin="3.1"))
+    # rows that cut across all metric groups at once (spaces.interaction_row), a third of the
+    # scoring checks' number (four validated documents per point)
+    for fam, twin in (("2", None), ("3.0", "3.1"), ("4.0", None)):
+        b.append(S.interaction_block(fam, tier, twin=twin, n=S.INTERACTION_ROWS[tier][fam] // 3))
     return b
 
 
